@@ -108,10 +108,6 @@ def enc_list(enc, xs):
     return " ".join([str(len(xs))] + [enc.time(x) for x in xs])
 
 
-def text_rows(c):
-    return c["rows"]
-
-
 def parse_field(s):
     try:
         v = float(s)
@@ -447,14 +443,13 @@ def oracle(c, r):
             if fires or near:
                 exp.append((i, fires))
         must = [i for i, f in exp if f and i not in amb]
-        if any(c["pl"][i - 1][1] == 0 for i in must):
-            # the ratio p[i] / p[i-1] is undefined: the definition still asks for a report, not an exception
-            if r[0] == "err":
-                return Failure(dict(sig, clause="no-error", exc=r[1], cause="previous-pitch-zero"),
-                               f"detectPitchErrors raised {r[1]} on a track with a zero sample")
-            return None
+        zero_prev = {i for i in must if c["pl"][i - 1][1] == 0}
         if r[0] == "err":
-            return Failure(dict(sig, clause="no-error", exc=r[1], cause="other"), f"detectPitchErrors raised {r[1]}")
+            # after a zero sample the ratio p[i] / p[i-1] is undefined; the definition asks for a report or none, not an exception
+            cause = "previous-pitch-zero" if zero_prev else "other"
+            return Failure(dict(sig, clause="no-error", exc=r[1], cause=cause),
+                           f"detectPitchErrors raised {r[1]}" + (" on a track with a zero sample" if zero_prev else ""))
+        must = [i for i in must if i not in zero_prev]
         got_t = [t for t, _ in r[1]]
         index_of = {row[0]: i for i, row in enumerate(c["pl"])}   # generated times are strictly increasing
         got_idx = [index_of.get(t) for t in got_t]
@@ -468,6 +463,8 @@ def oracle(c, r):
             if i not in allowed:
                 return Failure(dict(sig, clause="spurious-jump"), f"index {i} ({c['pl'][i - 1][1]} -> {c['pl'][i][1]}, threshold {thr}) reported")
         for i, (_, q) in zip(got_idx, r[1]):
+            if c["pl"][i - 1][1] == 0:
+                continue
             want = c["pl"][i][1] / c["pl"][i - 1][1]
             if not close(q, want, 1e-12, 0.0):
                 return Failure(dict(sig, clause="label"), f"label {q} at index {i}, expected {want}")
